@@ -77,6 +77,7 @@ type Obligation struct {
 	Res    SolverResult
 	Status string // discharged | failed | undecided
 	Extra  map[string]string
+	Spec   *Clause // contract clause this obligation checks (for replay)
 }
 
 type Heap struct {
@@ -116,6 +117,7 @@ type VC struct {
 	budget      int
 	ghostSorts  map[string]string
 	heap0       Heap
+	topArgs     []Val
 }
 
 func NewVC(e *Engine, top *ssa.Function) *VC {
@@ -580,6 +582,11 @@ const prelude = `(set-logic ALL)
 
 // script for one obligation (cone of influence)
 func (vc *VC) script(o *Obligation, wantModel bool) string {
+	s, _ := vc.scriptNeed(o, wantModel)
+	return s
+}
+
+func (vc *VC) scriptNeed(o *Obligation, wantModel bool) (string, map[string]bool) {
 	need := map[string]bool{}
 	var work []string
 	addSyms := func(t string) {
@@ -724,5 +731,5 @@ func (vc *VC) script(o *Obligation, wantModel bool) string {
 	if wantModel {
 		b.WriteString("(get-model)\n")
 	}
-	return b.String()
+	return b.String(), need
 }
